@@ -266,8 +266,10 @@ def reference(spec_id, o, items):
                     errors.add('alias_conflict:' + out_name(f))
                     # one of the spellings may be invalid as well, and whether the field counts as provided for
                     # dependency purposes is not specified: both may or may not be reported next to the conflict
+                    _pol = f['on_error'] or o.get('invalid_values') or 'throw'
                     if any(conv_int(raw, f['ge'])[0] != 'ok' for raw in distinct) and \
-                            (f['on_error'] or o.get('invalid_values') or 'throw') == 'throw':
+                            (_pol == 'throw' or (_pol == 'exclude' and required)):
+                        # (a required field is never excluded: its invalid spelling is an error under 'exclude' as well)
                         optional.add('parse:' + out_name(f))
                     if any(g['deps'] for g in spec):
                         optional.add('dependency')
